@@ -131,17 +131,17 @@ Qed.
 
 (* ---------- AppendCode simulates the tree on the bytes of the code ---------- *)
 Lemma lappend_sim nodes : forall fuel cc cur d code acc m,
-  lin_group nodes d cc cur = true -> group_shape None cc = true -> (d < 4)%nat ->
+  lin_group nodes d cc cur = true -> group_shape None cc = true -> N.of_nat (cur + length cc) <= 65532 -> (d < 4)%nat ->
   (4 - d <= fuel)%nat -> (4 - d <= m)%nat ->
   lappend fuel nodes cur code acc = Some (acc ++ code_bytes code (fst (tdecode cc (code_bytes code m) 0))).
 Proof.
-  induction fuel as [|fuel IH]; intros cc cur d code acc m Hg Hsh Hd Hfuel Hm; [lia|].
+  induction fuel as [|fuel IH]; intros cc cur d code acc m Hg Hsh Hend Hd Hfuel Hm; [lia|].
   destruct m as [|m]; [lia|].
   cbn [lappend code_bytes tdecode].
   set (b := N.land code 255). pose proof (land_255_lt code) as Hb. fold b in Hb.
   destruct (group_shape_find b cc None Hsh) as [n' Hf]; [intros p Hp; discriminate|assumption|].
   pose proof (group_shape_length cc None Hsh) as Hlen. cbv iota beta in Hlen.
-  destruct (scan_find nodes d b cc cur 257 n' Hg Hf ltac:(lia)) as (ln & idx & Hscan & Hn).
+  destruct (scan_find nodes d b cc cur 257 n' Hg Hf ltac:(lia) Hend) as (ln & idx & Hscan & Hn & _).
   rewrite Hscan, Hf.
   destruct n' as [k| |cc'].
   - rewrite lin_node_invalid in Hn. rewrite !andb_true_iff in Hn. destruct Hn as [[Hk Hc] Hdk].
@@ -155,7 +155,7 @@ Proof.
   - rewrite lin_node_sub in Hn. rewrite !andb_true_iff in Hn. destruct Hn as [[[[Hc Hd'] Hsh'] Hpos] Hg'].
     apply Nat.ltb_lt in Hd'.
     replace (child ln =? 0) with false by lia. replace (65532 <=? child ln) with false by lia.
-    rewrite (IH cc' (N.to_nat (child ln)) (S d) (N.shiftr code 8) (acc ++ [b]) m Hg' Hsh' Hd') by lia.
+    rewrite (IH cc' (N.to_nat (child ln)) (S d) (N.shiftr code 8) (acc ++ [b]) m Hg' Hsh' ltac:(lia) Hd') by lia.
     rewrite (tdecode_shift _ cc' 1). cbn [fst Nat.add code_bytes]. fold b.
     rewrite <- app_assoc. reflexivity.
 Qed.
@@ -215,12 +215,12 @@ Qed.
 
 (* with at least four bytes of input nothing is cut short *)
 Lemma tdecode_full nodes : forall s cc cur d x,
-  lin_group nodes d cc cur = true -> (d < 4)%nat -> (4 - d <= length s)%nat ->
+  lin_group nodes d cc cur = true -> N.of_nat (cur + length cc) <= 65532 -> (d < 4)%nat -> (4 - d <= length s)%nat ->
   tdecode cc (firstn (fst (tdecode cc s d) - d) s ++ x) d = tdecode cc s d.
 Proof.
-  induction s as [|b s IH]; intros cc cur d x Hg Hd Hlen; [cbn [length] in Hlen; lia|].
+  induction s as [|b s IH]; intros cc cur d x Hg Hend Hd Hlen; [cbn [length] in Hlen; lia|].
   cbn [tdecode]. destruct (find_child b cc) as [n'|] eqn:E.
-  - destruct (scan_find nodes d b cc cur (length cc) n' Hg E (le_n _)) as (ln & idx & _ & Hn).
+  - destruct (scan_find nodes d b cc cur (length cc) n' Hg E (le_n _) Hend) as (ln & idx & _ & Hn & _).
     destruct n' as [k| |cc']; cbn [fst].
     + rewrite lin_node_invalid in Hn. rewrite !andb_true_iff in Hn. destruct Hn as [[Hk Hc] Hdk].
       apply Nat.leb_le in Hdk. cbn [length] in Hlen.
@@ -231,7 +231,7 @@ Proof.
       apply Nat.ltb_lt in Hd'. cbn [length] in Hlen.
       pose proof (tdecode_ge s cc' (S d)).
       replace (fst (tdecode cc' s (S d)) - d)%nat with (S (fst (tdecode cc' s (S d)) - S d)) by lia.
-      cbn [firstn app tdecode]. rewrite E. apply (IH cc' (N.to_nat (child ln)) (S d) x Hg' Hd'). lia.
+      cbn [firstn app tdecode]. rewrite E. apply (IH cc' (N.to_nat (child ln)) (S d) x Hg' ltac:(lia) Hd'). lia.
   - cbn [fst]. replace (S d - d)%nat with 1%nat by lia. cbn [firstn app tdecode]. rewrite E. reflexivity.
 Qed.
 
@@ -286,7 +286,7 @@ Proof.
   - intro Hv. fold v in Hvalid. specialize (Hvalid Hv). unfold n. rewrite Hvalid. fold k. lia.
   - intro H4. unfold lin_ok in H. rewrite lin_node_sub in H.
     rewrite !andb_true_iff in H. destruct H as [[[[Hc Hd] Hsh] Hpos] Hg].
-    pose proof (tdecode_full nodes s t 0 0 z Hg ltac:(lia) ltac:(lia)) as Hf.
+    pose proof (tdecode_full nodes s t 0 0 z Hg ltac:(lia) ltac:(lia) ltac:(lia)) as Hf.
     rewrite Nat.sub_0_r in Hf. fold k in Hf. fold p in Hf. unfold n. rewrite Hf. fold k. lia.
 Qed.
 
